@@ -340,6 +340,28 @@ func (e *Engine) call(fr *frame, st *State, c *ast.CallExpr, k func(st *State, r
 		return
 	}
 	decl := e.funcs[fn]
+	if e.Go64 {
+		// models of the few standard-library functions the deployment helpers use (dialect go64, A10)
+		switch full {
+		case "crypto/sha256.Sum256":
+			e.evalList(fr, st, c.Args, func(st *State, vs []Val) {
+				r := e.uf("crypto_sha256_Sum256", spec.Type{K: spec.KNB}, vs[0])
+				st.facts = append(st.facts, sx.App("=", sx.App("str.len", r.bytes()), sx.Int(32)), sx.Not(sx.App("isnull", r.T)))
+				k(st, []Val{r})
+			})
+			return
+		case "bytes.HasPrefix":
+			e.evalList(fr, st, c.Args, func(st *State, vs []Val) {
+				k(st, []Val{mk(sx.App("str.prefixof", vs[1].bytes(), vs[0].bytes()), spec.KBool)})
+			})
+			return
+		case "bytes.Equal":
+			e.evalList(fr, st, c.Args, func(st *State, vs []Val) {
+				k(st, []Val{mk(sx.EqT(vs[0].bytes(), vs[1].bytes()), spec.KBool)})
+			})
+			return
+		}
+	}
 	if decl == nil {
 		panic("no body and no model for " + full)
 	}
